@@ -379,8 +379,30 @@ func runC12(w *World) {
 				if cnt > 0 && neverMember(m.slot, r, m.iv) && noOtherCycle(msgs, m) {
 					w.Violate("c12-"+m.kind+"-to-non-member", "client %d received a %s for chat slot %d without being a member", r, m.kind, m.slot)
 				}
-				if cnt == 0 && r != m.sender && connectedThroughout && memberThroughout(m.slot, r, m.iv) {
-					w.Violate("c12-"+m.kind+"-missing", "member %d of chat slot %d was not told that user %d joined/left", r, m.slot, m.about)
+				if r != m.sender && connectedThroughout && memberThroughout(m.slot, r, m.iv) {
+					// a notice can reach r after the same user's next cycle has begun, so it cannot be attributed to
+					// one cycle by its arrival step: r must hold at least as many notices of this kind about this user
+					// as there are cycles throughout which r was a connected member
+					required, received := 0, 0
+					for _, x := range msgs {
+						if x.kind == m.kind && x.slot == m.slot && x.about == m.about && loginRet[r] <= x.iv.inv && memberThroughout(x.slot, r, x.iv) {
+							required++
+						}
+					}
+					want := uint16(rp.TNotifyChatChangeUser)
+					if m.kind == "leavenote" {
+						want = rp.TNotifyChatDeleteUser
+					}
+					for _, rc := range c.Inbox {
+						cid, _ := rc.T.Get(rp.FChatID)
+						u, _ := rc.T.Get(rp.FUserID)
+						if rc.T.Type == want && bytes.Equal(cid, chatID[m.slot]) && len(u) == 2 && uint16(u[0])<<8|uint16(u[1]) == m.about {
+							received++
+						}
+					}
+					if received < required {
+						w.Violate("c12-"+m.kind+"-missing", "member %d of chat slot %d holds %d notices that user %d joined/left, it was a connected member throughout %d such cycles", r, m.slot, received, m.about, required)
+					}
 				}
 				continue
 			}
